@@ -300,6 +300,7 @@ def gen_auth(rng, n_records, sweep_stride=1, kts=KT_ALL):
         for n in [0, 1, 32, 63, 65, 66, 96, 128]:
             tam.append(("siglen_%d" % n, recspec(rec, sig={"len": n})))
         tam.append(("sig_as_list", recspec(rec, sig={"as": "l"})))
+        tam.append(("sig_list_header", recspec(rec, sig={"as": "lh"})))
         if sch == "secp":
             for tw in ["highs", "zero_r", "zero_s", "r_n", "s_n"]:
                 tam.append((tw, recspec(rec, sig={"tweak": tw})))
@@ -458,6 +459,8 @@ def struct_mutations(rng, rec):
         p2 = pad_to(rng, seq, [p for p in pairs if bytes(p[0]) != b"zpad"], target)
         if p2:
             out.append(("size_%d" % target, mk(with_pairs(p2))))
+    out.append(("sig_list_header", {"rec": {"items": base, "sig": {"by": by, "as": "lh"}}}))
+    out.append(("sig_wrapped_in_list", {"rec": {"items": base, "sig": {"by": by, "as": "l"}}}))
     # tiny lists
     out.append(("empty_list", {"raw": [0xc0]}))
     out.append(("sig_only", {"rec": {"items": [], "sig": {"by": by}}}))
@@ -568,6 +571,10 @@ def gen_text(rng, n, kts=KT_ALL):
     out = []
     for i in range(n):
         rec = rand_record(rng)
+        if i < 4:
+            # the smallest records of both schemes are always among the subjects
+            sg = ["e1", "k1", "e2", "k2"][i]
+            rec = {"seq": [[], [1], [1, 0], [200]][i], "pairs": rand_pairs(rng, sg, extra_reserved=False, max_custom=0), "by": sg}
         spec = recspec(rec)
         steps = []
         kt = rng.choice([k for k in kts if scheme_ok(k, rec["by"])])
@@ -604,12 +611,18 @@ def gen_text(rng, n, kts=KT_ALL):
         steps.append({"op": "from_json", "kts": kts, "quote": True, "text": {"b64": spec}, "tag": "json_no_prefix"})
         steps.append({"op": "from_json", "kts": kts, "quote": True, "text": {"b64": spec, "prefix": cps("enr:"), "suffix": cps("=")}, "tag": "json_pad"})
         steps.append({"op": "from_json", "kts": kts, "quote": True, "text": {"b64": spec, "prefix": cps("enr:"), "suffix": cps("\n")}, "tag": "json_newline"})
+        steps.append({"op": "from_json", "kts": kts, "text": {"b64": spec, "prefix": cps('"enr\\u003a'), "suffix": cps('"')}, "tag": "json_escaped_colon"})
+        steps.append({"op": "from_json", "kts": kts, "text": {"b64": spec, "prefix": cps('"\\u0065nr:'), "suffix": cps('"')}, "tag": "json_escaped_e"})
         steps.append({"op": "from_json", "kts": kts, "text": {"chars": cps("12345")}, "tag": "json_number"})
         steps.append({"op": "from_json", "kts": kts, "text": {"chars": cps("null")}, "tag": "json_null"})
         steps.append({"op": "from_json", "kts": kts, "text": {"chars": cps('["enr:AAAA"]')}, "tag": "json_array"})
         out.append({"sid": sid(), "steps": steps})
     # unstructured strings
     steps = []
+    for s0 in ["abc\u20ac", "ab\U0001F600", "enr\u2236-Iu4QM", "a\u20ac", "enr:\u20ac", "e\u00e9\u00e9\u00e9", "\u00e9nr:AAAA", "en\u00e9:AAAA", "abc\u00e9AAAA",
+               "\U0001F600", "\U0001F600\U0001F600", "a\U0001F600b", "enr", "enr:", "enr:A", "AAAA", ""]:
+        steps.append({"op": "from_str", "kts": kts, "text": {"chars": cps(s0)}, "tag": "multibyte_text"})
+        steps.append({"op": "from_json", "kts": kts, "quote": True, "text": {"chars": cps(s0)}, "tag": "multibyte_json"})
     for _ in range(30 * max(1, n // 4)):
         ln = rng.choice([0, 1, 2, 3, 4, 5, 8, 40, 200, 500])
         alphabet = rng.choice(["ABCDEFabcdef0123456789-_", "enr:AQ-_=", "".join(chr(c) for c in range(32, 127)), "é中A-"])
@@ -624,7 +637,10 @@ def gen_text(rng, n, kts=KT_ALL):
 
 # ---------------------------------------------------------------- histories (C03, C05..C10, C15)
 BAD_RAW = [[], [0x83, 1], [1, 2], [0x81, 5], [0xb8, 3, 1, 2, 3], [0xc1], [0xc3, 1], [0x80, 0x80], [0xf8, 2, 1, 2], [0x00],
-           [0x82, 0, 1], [0xc2, 0x81, 5]]
+           [0x82, 0, 1], [0xc2, 0x81, 5],
+           # a list followed by further items (a smuggled key/value pair), a list followed by one byte
+           [0xc0, 0x82, 0x69, 0x70, 0x84, 10, 0, 0, 1], [0xc0, 0x05], [0xc1, 0x01, 0x81, 0x80], [0xc2, 1, 2, 0xc0],
+           [0x83, 1, 2, 3, 0x83, 0x74, 0x63, 0x70, 0x50]]
 
 
 def rand_typed(rng):
@@ -872,6 +888,16 @@ def gen_keys(rng, n_random):
         b = rand_bytes(rng, 32)
         steps.append({"op": "key_import", "scheme": "secp", "bytes": b, "tag": "random"})
         steps.append({"op": "key_import", "scheme": "ed", "bytes": b, "tag": "random"})
+    e1seed = list(bytes.fromhex("9d61b19deffd5a60ba844af492ec2cc44449c5697b326919703bac031cae7f60"))
+    e2seed = list(bytes.fromhex("4ccd089b28ff96da9db6c346ec114e0f5b8a319f35aba624da8cf6ed4fb8a6fb"))
+    for seed, pk in [(e1seed, KEYS["e1"]["pk"]), (e2seed, KEYS["e2"]["pk"]), (e1seed, KEYS["e2"]["pk"]), (e1seed, [0] * 32), (KEYS["e1"]["pk"], e1seed)]:
+        # the 64-byte "keypair" layout (seed || public key) is not a 32-byte secret
+        steps.append({"op": "key_import", "scheme": "ed", "bytes": seed + pk, "tag": "ed_keypair_64"})
+        steps.append({"op": "key_import", "scheme": "secp", "bytes": seed + pk, "tag": "secp_64"})
+    for lead in range(1, 32, 3):
+        b = [0] * lead + [rng.randrange(1, 256)] + rand_bytes(rng, 31 - lead)
+        steps.append({"op": "key_import", "scheme": "secp", "bytes": b, "tag": "leading_zeros"})
+        steps.append({"op": "key_import", "scheme": "ed", "bytes": b, "tag": "leading_zeros"})
     for ln in list(range(0, 32)) + list(range(33, 66)):
         steps.append({"op": "key_import", "scheme": "ed", "bytes": rand_bytes(rng, ln), "tag": "ed_len"})
         steps.append({"op": "key_import", "scheme": "secp", "bytes": rand_bytes(rng, ln), "tag": "secp_len"})
@@ -1101,6 +1127,14 @@ def gen_eq(rng, n, kts=("k256", "libsecp", "ed", "comb")):
                  {"op": "clone", "h": "p2", "from": "a"},
                  {"op": "call", "h": "p2", "m": "insert", "args": {"key": [], "val": {"ty": "bytes", "v": [2]}}, "signer": own},
                  {"op": "call", "h": "p2", "m": "set_seq", "args": {"seq": rec["seq"]}, "signer": own}]
+        # a raw value that is a list followed by a key/value pair sorting right behind its carrier key: must be refused;
+        # if it were stored, the record and its re-decoding would be "equal" with different pairs
+        if not any(bytes(k) in (b"ip", b"idx", b"ie") for k, _ in rec["pairs"]):
+            smug = [0xc0] + enc_str(B("ip")) + enc_str([10, 0, 0, 1])
+            steps += [{"op": "clone", "h": "m", "from": "a"},
+                      {"op": "call", "h": "m", "m": "insert_raw_rlp", "args": {"key": B("idx"), "raw": smug}, "signer": own, "obs": "full"},
+                      {"op": "decode", "h": "m2", "kt": kt, "input": {"from": "m"}, "tag": "eq_redecode_smuggled", "obs": "full"},
+                      {"op": "compare", "a": "m", "b": "m2"}]
         hs = ["a", "c", "d", "s", "e1", "e2", "q", "k", "i", "p", "p2"]
         for x in hs:
             for y in hs:
@@ -1180,3 +1214,17 @@ def gen_api(rng, n):
         steps.append({"op": "encode_list", "hs": hs})
         out.append({"sid": sid(), "steps": steps})
     return out
+
+
+def gen_huge(rng):
+    """oversized and deeply nested values through the generic entry points: must be refused with an error value"""
+    sid = Sid("huge")
+    steps = []
+    for kt in ["k256", "ed"]:
+        own = signers_for(kt)[0]
+        steps.append({"op": "build", "h": "r", "kt": kt, "signer": own, "calls": [{"m": "udp4", "port": 1}]})
+        for depth in [40, 1000, 300000]:
+            steps.append({"op": "call", "h": "r", "m": "insert_raw_rlp", "signer": own, "args": {"key": B("deep"), "raw": {"nest": {"depth": depth, "core": [1]}}}})
+        steps.append({"op": "call", "h": "r", "m": "insert", "signer": own, "args": {"key": B("big"), "val": {"ty": "bytes", "v": [7] * 70000}}})
+        steps.append({"op": "call", "h": "r", "m": "remove_insert", "signer": own, "args": {"remove": [], "insert": [[B("big"), [7] * 70000]]}})
+    return [{"sid": sid(), "steps": steps}]
